@@ -49,6 +49,7 @@ pub fn column_type(j: &J) -> ColumnType {
         "MacAddr" => ColumnType::MacAddr,
         "LTree" => ColumnType::LTree,
         "Interval" => ColumnType::Interval(None, n("n")),
+        "Vector" => ColumnType::Vector(n("n")),
         other => panic!("column type {other}"),
     }
 }
@@ -62,9 +63,36 @@ impl IntoRcOrArc for std::sync::Arc<ColumnType> {
     }
 }
 
+fn column_type_method(c: &mut ColumnDef, m: &str, t: &J) {
+    let n = |f: &str| t.get(f).and_then(|x| x.as_u64()).map(|x| x as u32);
+    let must = |f: &str| n(f).unwrap_or_else(|| panic!("case error: method {m} needs {f}"));
+    match m {
+        "char_len" => { c.char_len(must("n")); } "char" => { c.char(); }
+        "string_len" => { c.string_len(must("n")); } "string" => { c.string(); } "text" => { c.text(); }
+        "tiny_integer" => { c.tiny_integer(); } "small_integer" => { c.small_integer(); } "integer" => { c.integer(); } "big_integer" => { c.big_integer(); }
+        "tiny_unsigned" => { c.tiny_unsigned(); } "small_unsigned" => { c.small_unsigned(); } "unsigned" => { c.unsigned(); } "big_unsigned" => { c.big_unsigned(); }
+        "float" => { c.float(); } "double" => { c.double(); }
+        "decimal_len" => { c.decimal_len(must("p"), must("s")); } "decimal" => { c.decimal(); }
+        "date_time" => { c.date_time(); } "interval" => { c.interval(None, n("n")); }
+        "timestamp" => { c.timestamp(); } "timestamp_with_time_zone" => { c.timestamp_with_time_zone(); }
+        "time" => { c.time(); } "date" => { c.date(); } "year" => { c.year(); }
+        "binary_len" => { c.binary_len(must("n")); } "binary" => { c.binary(); } "var_binary" => { c.var_binary(must("n")); }
+        "bit" => { c.bit(n("n")); } "varbit" => { c.varbit(must("n")); } "blob" => { c.blob(); } "boolean" => { c.boolean(); }
+        "money_len" => { c.money_len(must("p"), must("s")); } "money" => { c.money(); }
+        "json" => { c.json(); } "json_binary" => { c.json_binary(); } "uuid" => { c.uuid(); }
+        "custom" => { c.custom(a(t["name"].as_str().unwrap())); }
+        "enumeration" => { c.enumeration(a(t["name"].as_str().unwrap()), t["variants"].as_array().unwrap().iter().map(|v| a(v.as_str().unwrap())).collect::<Vec<_>>()); }
+        "array" => { c.array(column_type(&t["elem"])); }
+        "cidr" => { c.cidr(); } "inet" => { c.inet(); } "mac_address" => { c.mac_address(); } "ltree" => { c.ltree(); }
+        other => panic!("case error: unknown ColumnDef method {other}"),
+    }
+}
+
 pub fn column_def(j: &J) -> ColumnDef {
-    let mut c = match j.get("type") {
-        Some(t) if !t.is_null() => ColumnDef::new_with_type(a(&st(j, "name")), column_type(t)),
+    let mut c = match (j.get("type"), j.get("m").and_then(|m| m.as_str())) {
+        // "m": set the type through the named ColumnDef method, with the declared type's parameters as arguments
+        (Some(t), Some(m)) if !t.is_null() => { let mut c = ColumnDef::new(a(&st(j, "name"))); column_type_method(&mut c, m, t); c }
+        (Some(t), None) if !t.is_null() => ColumnDef::new_with_type(a(&st(j, "name")), column_type(t)),
         _ => ColumnDef::new(a(&st(j, "name"))),
     };
     for s in j["specs"].as_array().map(|v| v.as_slice()).unwrap_or(&[]) {
@@ -87,9 +115,13 @@ pub fn column_def(j: &J) -> ColumnDef {
 
 fn index_col(i: &mut IndexCreateStatement, c: &J) {
     let n = a(c["n"].as_str().unwrap());
-    match c.get("o").and_then(|x| x.as_str()) {
-        Some("Asc") => { i.col((n, IndexOrder::Asc)); }
-        Some("Desc") => { i.col((n, IndexOrder::Desc)); }
+    let p = c.get("p").and_then(|x| x.as_u64()).map(|x| x as u32);
+    match (c.get("o").and_then(|x| x.as_str()), p) {
+        (Some("Asc"), None) => { i.col((n, IndexOrder::Asc)); }
+        (Some("Desc"), None) => { i.col((n, IndexOrder::Desc)); }
+        (Some("Asc"), Some(p)) => { i.col((n, p, IndexOrder::Asc)); }
+        (Some("Desc"), Some(p)) => { i.col((n, p, IndexOrder::Desc)); }
+        (_, Some(p)) => { i.col((n, p)); }
         _ => { i.col(n); }
     }
 }
@@ -105,7 +137,9 @@ pub fn index_create(j: &J) -> IndexCreateStatement {
     if j["full_text"].as_bool().unwrap_or(false) { i.full_text(); }
     if j["nulls_not_distinct"].as_bool().unwrap_or(false) { i.nulls_not_distinct(); }
     for c in j.get("include").and_then(|x| x.as_array()).map(|v| v.as_slice()).unwrap_or(&[]) { i.include(a(c.as_str().unwrap())); }
-    if let Some(w) = j.get("where").filter(|x| !x.is_null()) { i.and_where(expr(w)); }
+    // "wheres": the predicate given in several and_where calls ("where" is their conjunction)
+    if let Some(ws) = j.get("wheres").and_then(|x| x.as_array()) { for w in ws { i.and_where(expr(w)); } }
+    else if let Some(w) = j.get("where").filter(|x| !x.is_null()) { i.and_where(expr(w)); }
     match j.get("index_type").and_then(|x| x.as_str()) {
         Some("BTree") => { i.index_type(IndexType::BTree); }
         Some("Hash") => { i.index_type(IndexType::Hash); }
